@@ -1613,7 +1613,6 @@ def sig_bare_last_chunk_after_get(case, params):
     return final is None
 
 
-SIGNATURES["bare_last_chunk_after_bodyless_get"] = sig_bare_last_chunk_after_get
 
 
 def sig_short_body_after_shrink(case, params):
@@ -1625,7 +1624,22 @@ def sig_short_body_after_shrink(case, params):
         bool(case.get("grow")) and case["grow"]["delta"] < 0
 
 
-SIGNATURES["short_body_after_source_shrinks"] = sig_short_body_after_shrink
+
+
+def sig_source_shrinks_to_nothing(case, params):
+    """Residual of the repaired C04-short-body-after-source-shrinks: when the source has lost ALL its remaining bytes,
+    _should_write() sees body.size == 0, _write_bytes() (where ef4bcfa detects the shortfall) never runs, and the head with
+    the old Content-Length goes out with no body and no error."""
+    if case.get("suite") != "client_request_framing" or case.get("check") != "framing" or not case.get("grow"):
+        return False
+    src = case["updates"][-1] if case["updates"] else case["a"]
+    if not isinstance(src, dict) or src.get("k") not in ("file", "bytesio"):
+        return False
+    n = _ps_n(src["d"])
+    return case["grow"]["delta"] < 0 and n > src["pre"] and n + case["grow"]["delta"] <= src["pre"]
+
+
+SIGNATURES["source_shrinks_to_nothing"] = sig_source_shrinks_to_nothing
 
 
 def cr_eval(bed, case):
